@@ -27,6 +27,10 @@ Definition c_ok (s : st) : Prop :=
   | CPopInc => head s < tail s
   | CSizeT => flag s = true -> (Wt s > 0)%nat
   | CSizeH t => (flag s = true -> (Wt s > 0)%nat) /\ (tail s > t -> (Wt s + Mt s > 0)%nat)
+  (* the drain in front of a socket item never touches the flag: the idle consumer's obligation stays *)
+  | CDrH => flag s = true -> (Wt s > 0)%nat
+  | CDrT h => h = head s /\ (flag s = true -> (Wt s > 0)%nat)
+  | CDrInc => head s < tail s /\ (flag s = true -> (Wt s > 0)%nat)
   | _ => True
   end.
 
@@ -129,6 +133,11 @@ Proof.
   - fin_all Hc.
   - destruct (t - head s =? 0) eqn:Et; [|fin_all Hc].
     apply Z.eqb_eq in Et. fin_all Hc.
+  - fin_all Hc.
+  - fin_all Hc.
+  - destruct Hc as [Hh Hfw]. subst h. destruct (head s >=? tail s) eqn:Eh.
+    + rewrite Z.geb_leb in Eh. apply Z.leb_le in Eh. fin_all Hfw.
+    + rewrite Z.geb_leb in Eh. apply Z.leb_gt in Eh. fin_all Hfw.
   - fin_all Hc.
 Qed.
 
